@@ -26,6 +26,7 @@ ASSUMPTIONS = [
     "low-pass and wedge masks are taken from the library's public primitives (their correctness is C16 / C08)",
     "float32 tolerance 2e-4 on scores, range clause checked with epsilon 1e-3",
     "landscape arg-max vs align(): compared on planted displacements, agreement within one landscape cell (up-sampling re-interpolates)",
+    "added during the seeding waves: partial and wide ranges, intensity gains 1e-4 / 1e4, multi-candidate landscapes with a bar mask, fit() against align(), call histories incl. a caller-owned quaternion buffer overwritten in place",
 ]
 
 SHAPES = [(6, 6, 6), (7, 7, 7), (6, 8, 7)]
